@@ -397,6 +397,9 @@ func (P *Prog) callees(ci ssa.CallInstruction) []*ssa.Function {
 		if v.Blocks != nil && !P.isMockRecv(v) {
 			return []*ssa.Function{v}
 		}
+		if v.Blocks == nil {
+			return P.stdCallbacks(c)
+		}
 		return nil
 	case *ssa.MakeClosure:
 		if f, ok := v.Fn.(*ssa.Function); ok && f.Blocks != nil {
@@ -656,4 +659,45 @@ func derefType(t types.Type) types.Type {
 		return p.Elem()
 	}
 	return t
+}
+
+// stdCallbacks: a call of an external function that receives a repo value converted to an interface
+// (io.Copy(w, &transaction), binary.Read(r, ..), io.ReadAll(&field) ...) may call that value's methods
+// of the parameter's interface type.
+func (P *Prog) stdCallbacks(c *ssa.CallCommon) []*ssa.Function {
+	var out []*ssa.Function
+	for _, a := range c.Args {
+		mi, ok := a.(*ssa.MakeInterface)
+		if !ok {
+			continue
+		}
+		iface, ok := mi.Type().Underlying().(*types.Interface)
+		if !ok {
+			continue
+		}
+		t := mi.X.Type()
+		named, _ := derefType(t).(*types.Named)
+		if named == nil || !P.isRepoPkg(named.Obj().Pkg()) || P.mocks[named.Obj()] {
+			continue
+		}
+		ms := P.SSA.MethodSets.MethodSet(t)
+		for i := 0; i < iface.NumMethods(); i++ {
+			m := iface.Method(i)
+			sel := ms.Lookup(m.Pkg(), m.Name())
+			if sel == nil {
+				continue
+			}
+			if f := P.SSA.MethodValue(sel); f != nil && f.Blocks != nil {
+				if f.Synthetic != "" {
+					if obj, ok := sel.Obj().(*types.Func); ok {
+						if decl := P.SSA.FuncValue(obj); decl != nil && decl.Blocks != nil {
+							f = decl
+						}
+					}
+				}
+				out = appendUniqueFn(out, f)
+			}
+		}
+	}
+	return out
 }
